@@ -673,6 +673,9 @@ def run(ck: Ck) -> None:
             obs = {
                 'all_key_writers_modelled': 'all_key_writers_modelled',
                 'all_index_writers_modelled': 'all_index_writers_modelled',
+                'all_key_dict_escapes_known': 'all_key_escapes_known',
+                'all_entity_list_writers_modelled': 'all_entity_list_writers_modelled',
+                'all_spawn_writers_modelled': 'all_spawn_writers_modelled',
                 'every_modelled_index_writer_seen': 'every_modelled_writer_seen',
                 'entity_index_adds_guarded_by_membership': 'entity_adds_guarded',
                 'setitem_rekeys_by_class_remove_and_add': 'rekeys_balanced "Entity.__setitem__" "by_class"',
